@@ -700,11 +700,15 @@ Definition s_f21 : state :=
      EAppFinish 1000 [122%N; 3000%N]; EPoll; EAdvance 8].
 Definition es_f21 : list event := [EPoll; EAdvance 3; EPoll; EAdvance 3; EPoll].
 
+Definition s_f21_nf : state := Eval vm_compute in s_f21.
+Lemma s_f21_eq : s_f21 = s_f21_nf.
+Proof. vm_compute. reflexivity. Qed.
+
 Lemma f21_quiet : forall c, In c (st_chans s_f21) -> c_fd c = 1000 ->
   quiet_chan p_f21 0 (st_clock s_f21) c /\ s_gone (c_sock c) = false /\ s_reading (c_sock c) = false /\
   s_room (c_sock c) <= 0 /\ c_pend c = 3022 /\ c_wc c = false.
 Proof.
-  intros c IC _. vm_compute in IC. destruct IC as [<-|[]].
+  rewrite s_f21_eq. unfold s_f21_nf. intros c IC _. cbn [st_chans In] in IC. destruct IC as [<-|[]].
   unfold quiet_chan. cbn.
   repeat split; try reflexivity; try lia.
 Qed.
@@ -719,7 +723,7 @@ Proof.
   assert (I : In 1000 (chan_fds s_f21)) by (vm_compute; left; reflexivity).
   unfold chan_fds in I. apply in_map_iff in I. destruct I as (c & F & IC).
   destruct (f21_quiet c IC F) as (Q & G & R & M & _).
-  exists c. repeat split; assumption.
+  exists c. split; [exact IC|]. split; [exact F|]. split; [exact Q|]. auto.
 Qed.
 
 (* all hypotheses of reap_deadline except writable_at_polls hold, the conclusion fails *)
@@ -749,6 +753,10 @@ Definition s_ok : state :=
     [EConnect 1; EPoll; ESend 1000 (TComplete false); EPoll; EAppFinish 1000 [122%N; 40%N]; EPoll; EAdvance 6].
 Definition es_ok : list event := [EConnect 0; EPoll; EAdvance 3; EStalls 1000; EPoll; EAdvance 3; EPoll].
 
+Definition s_ok_nf : state := Eval vm_compute in s_ok.
+Lemma s_ok_eq : s_ok = s_ok_nf.
+Proof. vm_compute. reflexivity. Qed.
+
 Example reap_hypotheses_satisfiable :
   reachable p_ok 2 1000 1000 s_ok /\ idle_expired p_ok 1000 1 s_ok /\
   (forall c, In c (st_chans s_ok) -> c_fd c = 1000 -> 0 < s_room (c_sock c)) /\
@@ -758,8 +766,8 @@ Example reap_hypotheses_satisfiable :
 Proof.
   assert (Q : forall c, In c (st_chans s_ok) -> c_fd c = 1000 ->
               quiet_chan p_ok 1 (st_clock s_ok) c /\ 0 < s_room (c_sock c)).
-  { intros c IC _. vm_compute in IC. destruct IC as [<-|[]]. unfold quiet_chan. cbn.
-    repeat split; try reflexivity; try lia. }
+  { rewrite s_ok_eq. unfold s_ok_nf. intros c IC _. cbn [st_chans In] in IC. destruct IC as [<-|[]].
+    unfold quiet_chan. cbn. repeat split; try reflexivity; try lia. }
   split; [eexists; reflexivity|].
   split; [split; [vm_compute; left; reflexivity|intros c IC F; apply Q; assumption]|].
   split; [intros c IC F; apply Q; assumption|].
